@@ -88,6 +88,10 @@ def run(ctx):
         alt = render.toks_to_text(e["alt"], ctx.rng, style) if e["alt"] else None
         items.append(dict(id="m%d" % n, kind=e["kind"], want=e["want"], text=text, alt=alt))
         kinds[e["kind"]] = kinds.get(e["kind"], 0) + 1
+    from props import scale
+    for s in scale.items(ctx, quick):
+        items.append(dict(id=s["id"], kind="same", want=s["want"], text=s["text"], alt=None))
+        kinds["same"] = kinds.get("same", 0) + 1
     ctx.cov["by_kind"] = kinds
     ctx.cov["samples"] = [dict(kind=i["kind"], text=i["text"], alt=i["alt"]) for i in
                           [next(x for x in items if x["kind"] == k) for k in sorted(kinds)]]
